@@ -25,6 +25,7 @@ type Env struct {
 	anchorBlock *ssa.BasicBlock
 	anchorIdx   int
 	specDepth   int
+	paramVars   map[string]TV       // function parameters: shadowed by locals at the anchor
 	absIdx      map[string]absIndex // quantified variables rebased to absolute row positions
 }
 
@@ -270,6 +271,9 @@ func (f *frame) transIdent(name string, env *Env) TV {
 	if tv, ok := f.localAt(name, env); ok {
 		return tv
 	}
+	if tv, ok := env.paramVars[name]; ok {
+		return tv
+	}
 	if obj := env.pkg.Scope().Lookup(name); obj != nil {
 		return f.objTV(obj, env)
 	}
@@ -337,7 +341,8 @@ func (f *frame) findImport(pkg *types.Package, name string) *types.Package {
 
 func (f *frame) transSel(x *CSel, env *Env) TV {
 	if id, ok := x.X.(*CIdent); ok {
-		if _, shadow := env.vars[id.Name]; !shadow && env.pkg.Scope().Lookup(id.Name) == nil {
+		_, isParam := env.paramVars[id.Name]
+		if _, shadow := env.vars[id.Name]; !shadow && !isParam && env.pkg.Scope().Lookup(id.Name) == nil {
 			if _, isLocal := f.localAt(id.Name, env); !isLocal {
 				if p := f.findImport(env.pkg, id.Name); p != nil {
 					obj := p.Scope().Lookup(x.Sel)
